@@ -139,8 +139,12 @@ func runC10(seed uint64, tier, dir, replay string) error {
 	for t := 0; t < trials; t++ {
 		nf := 1 + rng.Intn(40)
 		long := t%4 == 3 // more frames than the pool has buffers: every buffer is recycled
+		large := t%8 == 7 // more frames above the pool buffer capacity than the pool has buffers
 		if long {
 			nf = 60 + rng.Intn(140)
+		}
+		if large {
+			nf = 52 + rng.Intn(12)
 		}
 		sizes := make([]int, nf)
 		var stream []byte
@@ -150,6 +154,9 @@ func runC10(seed uint64, tier, dir, replay string) error {
 			if long && c < 3 {
 				c = 3
 			}
+			if large {
+				c = 2
+			}
 			switch c {
 			case 0:
 				sizes[i] = 8
@@ -157,6 +164,9 @@ func runC10(seed uint64, tier, dir, replay string) error {
 				sizes[i] = 2040 + rng.Intn(20) // around the pool buffer capacity
 			case 2:
 				sizes[i] = 2049 + rng.Intn(4000) // beyond it
+				if large {
+					sizes[i] = 2049 + rng.Intn(300)
+				}
 			default:
 				sizes[i] = 8 + rng.Intn(300)
 			}
@@ -167,7 +177,14 @@ func runC10(seed uint64, tier, dir, replay string) error {
 		k := len(stream)
 		failed := 0
 		mode := rng.Intn(4)
-		switch rng.Intn(3) {
+		if large && mode < 2 { // 130 KB byte by byte would only slow the model down
+			mode += 2
+		}
+		cut := rng.Intn(3)
+		if large && t%16 == 15 {
+			cut = 2 // every second large history arrives completely
+		}
+		switch cut {
 		case 0: // failure after a random byte
 			k = rng.Intn(len(stream) + 1)
 			failed = 1
@@ -282,7 +299,7 @@ func runC10(seed uint64, tier, dir, replay string) error {
 		o.Add(fmt.Sprintf("(Defr %s %s)", listT(cts), listT(bts)),
 			map[string]interface{}{"kind": "deframe", "chunks": len(chunks), "frames": nf, "buffers_seen_by_parsers": len(bufs)}, "deframe", fmt.Sprint(nf, len(chunks)))
 	}
-	o.Meta["rule"] = "real util.MessageStream over a scripted net.Conn: 1..40 well-formed frames of 8..6048 bytes (incl. sizes around and beyond the 2 KiB pool buffers), the byte stream cut into reads byte-by-byte / 1..7 / 1..3000 / one chunk, a connection failure after a random byte, inside the first header, or exactly after a frame; GOMAXPROCS 1/2/4/16, yields injected in Read, in the parser and in the consumer; every delivered message compared byte for byte with its frame; the buffers handed to the parser goroutines compared with the model's de-framer on the same chunks; distinct by frames x chunk mode x failure x whole frames"
+	o.Meta["rule"] = "real util.MessageStream over a scripted net.Conn: 1..40 well-formed frames of 8..6048 bytes (incl. sizes around and beyond the 2 KiB pool buffers), every fourth history 60-200 small frames (more than the pool has buffers), every eighth 52-63 frames above 2 KiB, the byte stream cut into reads byte-by-byte / 1..7 / 1..3000 / one chunk, a connection failure after a random byte, inside the first header, or exactly after a frame; GOMAXPROCS 1/2/4/16, yields injected in Read, in the parser and in the consumer; every delivered message compared byte for byte with its frame; the buffers handed to the parser goroutines compared with the model's de-framer on the same chunks; distinct by frames x chunk mode x failure x whole frames"
 	return o.Close()
 }
 
